@@ -317,7 +317,7 @@ class C01(Prop):
         return 800 if tier == "quick" else 30000
 
     def cases(self, rng, tables, n, tier):
-        return gen.stress_cases(rng, big=(tier == "thorough")) + [mixed_case(rng, tables) for _ in range(n)]
+        return [gen.length_sweep_case()] + gen.stress_cases(rng, big=(tier == "thorough")) + [mixed_case(rng, tables) for _ in range(n)]
 
     def oracle(self, case, obs, crash, tables):
         return oracle.c01(case, obs, crash)
@@ -337,7 +337,7 @@ class C02(Prop):
 
     def cases(self, rng, tables, n, tier):
         big = [gen.many_packets_case(rng, tables, n=2600)] if tier == "thorough" else []
-        return [gen.large_buffer_case(rng, tables), gen.many_packets_case(rng, tables)] + big + [mixed_case(rng, tables) for _ in range(n)]
+        return [gen.length_sweep_case(), gen.large_buffer_case(rng, tables), gen.many_packets_case(rng, tables)] + big + [mixed_case(rng, tables) for _ in range(n)]
 
     def oracle(self, case, obs, crash, tables):
         return oracle.c02(case, obs, crash)
